@@ -585,6 +585,8 @@ func (e *env) parseCase(d caseDesc) {
 		dd.Form = "yaml"
 		e.viol(fmt.Sprintf("%s:yaml:documented:rejected", in.Pos), dd, results)
 	}
+	// the same item in a file that holds more than this item (c18_context_test.go)
+	e.contextCases(d, a, fwd, results)
 	// metamorphic: working input forms must agree with each other on every input
 	if structural[in.Class] {
 		return
@@ -689,6 +691,8 @@ type startObs struct {
 	GaveUp    bool        `json:"gave_up,omitempty"`
 	ParsedAs  *pitem      `json:"parsed_as,omitempty"`
 	DirectHit bool        `json:"forward_target_hit,omitempty"`
+	Use       int         `json:"use_of_the_same_object,omitempty"` // 2, 3, ...: the object had been used before
+	FirstUse  *obs        `json:"observed_at_first_use,omitempty"`
 }
 
 func (e *env) startCase(d caseDesc) {
@@ -714,6 +718,17 @@ func sigT(in input, kind string) string {
 // text of the address names (a forgiving reading of a misplaced host:port / path): then only the
 // transport is compared.
 func (e *env) judgeTransport(d caseDesc, form string, nat *ref, a string, o obs, so *startObs, lenient bool) {
+	e.judgeTransportPhase(d, form, nat, a, o, so, lenient, "")
+}
+
+// phaseReuse marks what is observed when a configured object is used again (second Connect of an
+// upstream, second connection through a listener / channel, second client of a server): the address
+// means the same on every use, so the observation is judged by the same table; the signature tells
+// the two apart.
+const phaseReuse = "reuse-"
+
+// judgeTransportPhase: true = the observation agrees with the table (nothing reported).
+func (e *env) judgeTransportPhase(d caseDesc, form string, nat *ref, a string, o obs, so *startObs, lenient bool, phase string) bool {
 	in := d.In
 	d.Form = form
 	if nat != nil && in.Want == "reject" && lenient {
@@ -724,34 +739,37 @@ func (e *env) judgeTransport(d caseDesc, form string, nat *ref, a string, o obs,
 		if o.Kind != "" && asksEncryption(a) && !o.TLS {
 			kind = "unencrypted"
 		}
-		e.viol(sigT(in, kind), d, so)
-		return
+		e.viol(sigT(in, phase+kind), d, so)
+		return false
 	}
 	if o.Kind == "" {
 		if in.Class == "udp-password" {
 			// a password-protected UDP endpoint speaks AES-encrypted KCP: no plaintext probe can (or should)
 			// identify it; that it came up on the datagram socket and answers no plaintext probe is the expected outcome
 			e.rec.Seen("udp_password_endpoints_not_answering_plaintext_probes", in.Pos+":"+d.Form)
-			return
+			return false
 		}
 		if in.NoCert && nat.TLS {
 			// a TLS endpoint without a certificate can complete no handshake at all: it came up, but it answers neither the
 			// plaintext nor the TLS probes, so nothing is carried unencrypted
 			e.rec.Seen("tls_endpoints_without_certificate_that_came_up_and_serve_nobody", in.Pos+":"+readScheme(in.Addr))
-			return
+			return false
 		}
 		e.rec.Inconclusive("endpoint came up but no probe identified it: "+o.Detail, d)
-		return
+		return false
 	}
 	netOK := o.Net == nat.Net || (nat.Net == "udp|tcp" && (o.Net == "udp" || o.Net == "tcp"))
 	switch {
 	case nat.TLS && !o.TLS:
-		e.viol(sigT(in, "unencrypted"), d, so)
+		e.viol(sigT(in, phase+"unencrypted"), d, so)
 	case !nat.TLS && o.TLS:
-		e.viol(sigT(in, "unexpectedly-encrypted"), d, so)
+		e.viol(sigT(in, phase+"unexpectedly-encrypted"), d, so)
 	case o.Kind != nat.Kind || !netOK:
-		e.viol(sigT(in, "wrong-transport"), d, so)
+		e.viol(sigT(in, phase+"wrong-transport"), d, so)
+	default:
+		return true
 	}
+	return false
 }
 
 func isAddrInUse(s string) bool { return strings.Contains(s, "address already in use") }
@@ -854,13 +872,14 @@ func (e *env) startServer(d caseDesc) {
 		so.Bound = bound
 		var o obs
 		lenient := false
+		target, tnet := "", ""
 		switch srv.(type) {
 		case *server.IoServer:
 			o = probeStdio(stdinW, stdoutR, nat != nil && nat.TLS)
 		default:
 			named := namedEndpoints(a, nat, e.tmp)
-			target := where
-			tnet := network
+			target = where
+			tnet = network
 			if bound != "" {
 				target = bound
 			} else if target == "" && len(named) > 0 {
@@ -894,12 +913,27 @@ func (e *env) startServer(d caseDesc) {
 			d.Form = "start"
 			e.viol(sigT(in, "listens-elsewhere"), d, so)
 		}
-		e.judgeTransport(d, "start", nat, a, o, so, lenient)
+		good := e.judgeTransportPhase(d, "start", nat, a, o, so, lenient, "")
 		if nat != nil && in.Want != "reject" && so.Secure != nil && so.Secure.(bool) != nat.TLS {
 			d.Form = "start"
 			e.viol(sigT(in, "secure-flag-mismatch"), d, so)
 		}
 		e.rec.Stat("start_probed_endpoints", 1)
+		// a server serves more than one client: the next one has to find the same transport
+		// (a stdio server has one peer only)
+		if good && target != "" {
+			for use := 2; use <= 1+e.rec.Pick(1, 2); use++ {
+				o2 := e.classifyEndpoint(tnet, target, nat)
+				so2 := *so
+				so2.Use, so2.FirstUse, so2.Observed = use, &o, &o2
+				e.rec.Case("start-reuse|"+in.key(), true)
+				e.rec.Stat("reuse_observations:server", 1)
+				e.rec.Seen("observed_transports", in.Pos+":"+phaseReuse+o2.String())
+				if !e.judgeTransportPhase(d, "start", nat, a, o2, &so2, lenient, phaseReuse) {
+					break
+				}
+			}
+		}
 		return
 	}
 	e.rec.Inconclusive("no free port after 4 attempts", d)
@@ -1135,6 +1169,7 @@ func (e *env) startUpstream(d caseDesc) {
 	pi := describe(u)
 	so.ParsedAs = &pi
 	stdioFlight := make(chan flight, 1)
+	_, isStdio := u.(*upstream.InputOutput)
 	if io_, ok := u.(*upstream.InputOutput); ok {
 		ir, iw, _ := os.Pipe()
 		or, ow, _ := os.Pipe()
@@ -1143,50 +1178,56 @@ func (e *env) startUpstream(d caseDesc) {
 		r := &recorder{C: stdioFlight}
 		go r.handleStream(&pipeConn{r: or, w: iw}, "stdio", e.crt, false)
 	}
-	done := make(chan string, 1)
-	go func() {
-		var cerr error
-		pan, site, val := vcommon.Guard(func() { cerr = u.Connect(&cert.ClientConfig{InsecureSkipVerify: true}, false) })
-		switch {
-		case pan:
-			done <- "panic@" + site + ": " + val
-		case cerr != nil:
-			done <- "error: " + firstLine(cerr.Error())
-		default:
-			done <- "connected"
+	// one use of the upstream object: Connect, and the first flight the recorder saw of it
+	connectOnce := func() (fl *flight, result string, ok bool) {
+		done := make(chan string, 1)
+		go func() {
+			var cerr error
+			pan, site, val := vcommon.Guard(func() { cerr = u.Connect(&cert.ClientConfig{InsecureSkipVerify: true}, false) })
+			switch {
+			case pan:
+				done <- "panic@" + site + ": " + val
+			case cerr != nil:
+				done <- "error: " + firstLine(cerr.Error())
+			default:
+				done <- "connected"
+			}
+		}()
+		wd := time.After(watchdog)
+		for fl == nil && result == "" {
+			select {
+			case f := <-rs.rec.C:
+				fl = &f
+			case f := <-stdioFlight:
+				fl = &f
+			case result = <-done:
+			case <-wd:
+				e.rec.Inconclusive("watchdog: upstream neither emitted anything nor gave up", d)
+				return nil, "", false
+			}
 		}
-	}()
-	var fl *flight
-	result := ""
-	wd := time.After(watchdog)
-	for fl == nil && result == "" {
-		select {
-		case f := <-rs.rec.C:
-			fl = &f
-		case f := <-stdioFlight:
-			fl = &f
-		case result = <-done:
-		case <-wd:
-			e.rec.Inconclusive("watchdog: upstream neither emitted anything nor gave up", d)
-			return
+		if result == "" {
+			select {
+			case result = <-done:
+			case <-time.After(watchdog):
+				result = connectPending
+				e.rec.Stat("upstream_connect_never_returned", 1)
+			}
+		} else {
+			// Connect returned; a flight may still be queued
+			select {
+			case f := <-rs.rec.C:
+				fl = &f
+			case f := <-stdioFlight:
+				fl = &f
+			default:
+			}
 		}
+		return fl, result, true
 	}
-	if result == "" {
-		select {
-		case result = <-done:
-		case <-time.After(watchdog):
-			result = "(connect still pending after the recorder refused it)"
-			e.rec.Stat("upstream_connect_never_returned", 1)
-		}
-	} else {
-		// Connect returned; a flight may still be queued
-		select {
-		case f := <-rs.rec.C:
-			fl = &f
-		case f := <-stdioFlight:
-			fl = &f
-		default:
-		}
+	fl, result, ok := connectOnce()
+	if !ok {
+		return
 	}
 	so.StartErr = result
 	so.Flight = fl
@@ -1203,16 +1244,62 @@ func (e *env) startUpstream(d caseDesc) {
 		}
 		return
 	}
-	o := fl.asObs()
-	if nat != nil && nat.Kind == "stdio" && fl.Net == "stdio" && o.Kind == "socket" {
-		o.Kind = "stdio"
+	toObs := func(fl *flight) obs {
+		o := fl.asObs()
+		if nat != nil && nat.Kind == "stdio" && fl.Net == "stdio" && o.Kind == "socket" {
+			o.Kind = "stdio"
+		}
+		return o
 	}
+	o := toObs(fl)
 	so.Observed = &o
 	e.rec.Seen("start_outcomes", in.Pos+":"+in.Class+":emitted")
 	e.rec.Seen("observed_transports", in.Pos+":"+o.String())
 	e.rec.Stat("start_probed_endpoints", 1)
-	e.judgeTransport(d, "start", nat, a, o, so, true) // the recorder sits at the endpoint the text names
+	good := e.judgeTransportPhase(d, "start", nat, a, o, so, true, "") // the recorder sits at the endpoint the text names
+	// The upstream object lives as long as the client does and is connected again whenever the carrier has to
+	// be (re)opened: first attempt failed, session lost, fail-over list walked again. Every use has to select
+	// the transport the address names. (A process has one stdio: a stdio upstream is not connected twice.)
+	if !good || isStdio || result == connectPending {
+		return
+	}
+	for use := 2; use <= 1+e.rec.Pick(2, 4); use++ {
+		for drained := false; !drained; {
+			select {
+			case <-rs.rec.C:
+			default:
+				drained = true
+			}
+		}
+		fl2, result2, ok := connectOnce()
+		if !ok {
+			return
+		}
+		so2 := *so
+		so2.Use, so2.FirstUse, so2.StartErr, so2.Flight, so2.Observed = use, &o, result2, fl2, nil
+		e.rec.Case("start-reuse|"+in.key(), true)
+		e.rec.Stat("reuse_observations:upstream", 1)
+		if strings.HasPrefix(result2, "panic@") {
+			e.viol(fmt.Sprintf("%s:start:%s:%s%s", in.Pos, in.panicClass(), phaseReuse, strings.SplitN(result2, ": ", 2)[0]), d, &so2)
+			return
+		}
+		if fl2 == nil || fl2.Outer == "eof" {
+			e.rec.Seen("start_outcomes", in.Pos+":"+in.Class+":"+phaseReuse+"no-emission("+strings.SplitN(result2, ":", 2)[0]+")")
+			if in.Want == "accept" {
+				e.viol(sigT(in, phaseReuse+"never-connects"), d, &so2)
+			}
+			return
+		}
+		o2 := toObs(fl2)
+		so2.Observed = &o2
+		e.rec.Seen("observed_transports", in.Pos+":"+phaseReuse+o2.String())
+		if !e.judgeTransportPhase(d, "start", nat, a, o2, &so2, true, phaseReuse) || result2 == connectPending {
+			return
+		}
+	}
 }
+
+const connectPending = "(connect still pending after the recorder refused it)"
 
 func (e *env) startListener(d caseDesc) {
 	in := d.In
@@ -1373,9 +1460,45 @@ func (e *env) startListener(d caseDesc) {
 		so.Observed = &o
 		e.rec.Seen("observed_transports", in.Pos+":"+o.String())
 		e.rec.Stat("start_probed_endpoints", 1)
-		e.judgeTransport(d, "start", nat, a, o, so, namedHit(dn, bound, namedEndpoints(a, nat, e.tmp)))
+		lenient := namedHit(dn, bound, namedEndpoints(a, nat, e.tmp))
+		good := e.judgeTransportPhase(d, "start", nat, a, o, so, lenient, "")
 		if in.Class == "documented" && in.Fwd != "" && !so.DirectHit {
 			e.viol(sigT(in, "forward-not-tried-first"), d, so)
+			good = false
+		}
+		// a listener takes more than one connection: the next one has to surface the same way
+		for use := 2; good && use <= 1+e.rec.Pick(1, 2); use++ {
+			c2, err := net.DialTimeout(dn, bound, ioWait)
+			if err != nil {
+				e.rec.Inconclusive("listener socket not connectable a second time: dial "+dn+" "+bound+": "+err.Error(), d)
+				return
+			}
+			defer c2.Close()
+			c2.Write([]byte("ping"))
+			so2 := *so
+			so2.Use, so2.FirstUse, so2.Observed, so2.Flight, so2.DirectHit = use, &o, nil, nil, false
+			var o2 obs
+			select {
+			case f := <-up.C:
+				so2.Flight = &f
+				o2 = obs{Kind: "socket", Net: dn, Detail: "upstream saw " + f.Outer}
+			case f := <-fc:
+				so2.Flight = &f
+				so2.DirectHit = true
+				o2 = obs{Kind: "socket", Net: dn, Detail: "forward target saw " + f.Outer}
+			case <-time.After(watchdog):
+				e.rec.Inconclusive("watchdog: second accepted connection reached neither upstream nor forward target", d)
+				return
+			}
+			so2.Observed = &o2
+			e.rec.Case("start-reuse|"+in.key(), true)
+			e.rec.Stat("reuse_observations:listener", 1)
+			e.rec.Seen("observed_transports", in.Pos+":"+phaseReuse+o2.String())
+			good = e.judgeTransportPhase(d, "start", nat, a, o2, &so2, lenient, phaseReuse)
+			if good && in.Class == "documented" && in.Fwd != "" && !so2.DirectHit {
+				e.viol(sigT(in, phaseReuse+"forward-not-tried-first"), d, &so2)
+				good = false
+			}
 		}
 		return
 	}
@@ -1453,7 +1576,47 @@ func (e *env) startChannel(d caseDesc) {
 		so.Observed = &o
 		e.rec.Seen("observed_transports", in.Pos+":"+o.String())
 		e.rec.Stat("start_probed_endpoints", 1)
-		e.judgeTransport(d, "start", nat, a, o, so, true)
+		good := e.judgeTransportPhase(d, "start", nat, a, o, so, true, "")
+		// a channel is opened once per tunnelled connection: the next one has to arrive the same way
+		for use := 2; good && use <= 1+e.rec.Pick(1, 2); use++ {
+			var conn2 net.Conn
+			var cerr2 error
+			pan, site, val := vcommon.Guard(func() { conn2, cerr2 = ch.OpenConnection() })
+			so2 := *so
+			so2.Use, so2.FirstUse, so2.Observed, so2.Flight = use, &o, nil, nil
+			e.rec.Case("start-reuse|"+in.key(), true)
+			e.rec.Stat("reuse_observations:channel", 1)
+			if pan {
+				so2.StartErr = val
+				e.viol(fmt.Sprintf("%s:start:%s:%spanic@%s", in.Pos, in.panicClass(), phaseReuse, site), d, &so2)
+				return
+			}
+			if cerr2 != nil {
+				so2.StartErr = firstLine(cerr2.Error())
+				if in.Want == "accept" {
+					e.viol(sigT(in, phaseReuse+"never-connects"), d, &so2)
+				}
+				return
+			}
+			c2 := conn2
+			defer vcommon.Guard(func() {
+				if c2 != nil {
+					c2.Close()
+				}
+			})
+			conn2.Write([]byte("ping"))
+			select {
+			case f2 := <-rs.rec.C:
+				so2.Flight = &f2
+				o2 := obs{Kind: "socket", Net: f2.Net, Detail: "target saw " + f2.Raw}
+				so2.Observed = &o2
+				e.rec.Seen("observed_transports", in.Pos+":"+phaseReuse+o2.String())
+				good = e.judgeTransportPhase(d, "start", nat, a, o2, &so2, true, phaseReuse)
+			case <-time.After(watchdog):
+				e.rec.Inconclusive("watchdog: channel opened a second connection that did not arrive at the target", d)
+				return
+			}
+		}
 	case <-time.After(watchdog):
 		e.rec.Inconclusive("watchdog: channel opened a connection that did not arrive at the target", d)
 	}
